@@ -357,6 +357,11 @@ def run_program(prog: dict, backend: str, *, observe_cache=True, stop_on_error=F
                     env.exprs[st["id"]] = r
                 elif st["op"] in ("export",):
                     ob["frame"] = r
+                    if backend == "sqlite":
+                        try:
+                            ob["query"] = env.tables[st["src"]] >> pdt.build_query()
+                        except Exception as e:  # noqa: BLE001
+                            ob["query_error"] = exc_class(e)
                 elif st["op"] == "build_query":
                     ob["query"] = r
                 else:
